@@ -2046,3 +2046,66 @@ func ruleR255(c *Ctx) {
 		c.Missing("decoding aliases", "no UnmarshalXML method that decodes into a function-local type was found")
 	}
 }
+
+func init() {
+	register(&Rule{ID: "R256", Title: "what happens inside a sub-process is seen outside: the relay of a sub-process forwards every inner trace but the ones it names — the forwarding send is the unconditional content of the default clause of its dispatch", Min: 1, Run: ruleR256})
+}
+
+func ruleR256(c *Ctx) {
+	p := c.P
+	what := "observers of the instance see a sub-process as its content spliced in place: the relay hands every inner trace on, except the end-of-scope bookkeeping it names. Turned into a list of trace kinds 'worth relaying', everything the list forgets is dropped — the landmark of a nested sub-process, and any trace kind added later"
+	n := 0
+	for _, f := range p.Funcs {
+		if f.Body == nil || f.Pkg.PkgPath != pathBpmn {
+			continue
+		}
+		r := f.Root()
+		if r.Obj == nil || recvNamed(r.Obj) == nil || recvNamed(r.Obj).Obj().Name() != "subProcess" {
+			continue
+		}
+		in := info(f)
+		inspectNoLit(f.Body, func(m ast.Node) bool {
+			ts, ok := m.(*ast.TypeSwitchStmt)
+			if !ok {
+				return true
+			}
+			isRelay := false
+			var def *ast.CaseClause
+			for _, st := range ts.Body.List {
+				cc := st.(*ast.CaseClause)
+				if cc.List == nil {
+					def = cc
+				}
+				for _, e := range cc.List {
+					if isNamed(in.TypeOf(e), pathBpmn, "CeaseFlowTrace") {
+						isRelay = true
+					}
+				}
+			}
+			if !isRelay {
+				return true
+			}
+			// only the relay proper: some clause sends to a tracer
+			n++
+			if def == nil {
+				c.Bad(f, ts, "relay dispatch of "+f.Root().QName(), what, "the dispatch has no default clause: only the listed kinds are relayed")
+				return true
+			}
+			okSend := false
+			for _, st := range def.Body {
+				es, ok := st.(*ast.ExprStmt)
+				if !ok {
+					continue
+				}
+				if cl, ok := es.X.(*ast.CallExpr); ok && isTracerMethod(in, cl, "Send") {
+					okSend = true
+				}
+			}
+			c.Check(okSend, f, def, "relay dispatch of "+f.Root().QName(), what, ifElse(okSend, "the default clause forwards the trace unconditionally", "the default clause does not forward the trace as a plain statement (it is conditional, or missing)"))
+			return true
+		})
+	}
+	if n == 0 {
+		c.Missing("relay dispatch", "no type switch of the sub-process that has a CeaseFlowTrace case was found")
+	}
+}
